@@ -8,6 +8,7 @@
 //	forge.go  kwpForge    wrappings of MALFORMED plaintexts-of-the-wrap, made by the model's W (two-phase: hlib.Ask)
 //	main.go   mainLoop    AES-SIV / S2V / CMAC / XOREndAndCompute / AES-KWP differential lines + mutation streams
 //	main.go   largeLoop   a few 16–64 KiB plaintexts / associated data on chunk boundaries
+//	main.go   hugeLoop    256 KiB (thorough: 1 MiB) plaintext / associated data
 //	ctr.go    ctrHunt     (key, pt, ad) searched so that the masked SIV's low 8/16/24 bits wrap inside the message
 //	ctr.go    ctrDirect   the CTR layer alone (hook VerifCtrCrypt) on IVs whose low k bits are (nearly) all ones
 //	replay.go replay      re-evaluates the op lines of a replay file on the implementation
@@ -104,6 +105,12 @@ func sivLens(rng *hlib.Rng) (int, int) {
 		al = bigLen(rng, 4096)
 	case 4:
 		pl, al = bigLen(rng, 4096), bigLen(rng, 4096)
+	case 5:
+		if rng.Bool() {
+			pl = 0
+		} else {
+			al = 0
+		}
 	}
 	return pl, al
 }
@@ -118,8 +125,10 @@ func lenClass(n int) string {
 		return "1041..4113"
 	case n < 16384:
 		return "4114..16383"
+	case n <= 65553:
+		return "16384..65553"
 	}
-	return ">=16384"
+	return ">65553"
 }
 
 // ---------- AES-SIV instances ----------
@@ -309,6 +318,14 @@ func mainLoop(o *hlib.Out, rng *hlib.Rng) {
 			for j := 0; j < 3; j++ {
 				pl, al := sivLens(rng)
 				pt, ad := rng.Bytes(pl), rng.Bytes(al)
+				if pl == 0 && rng.Bool() {
+					pt = nil // nil and empty must behave alike
+					o.Count("siv/nil-pt")
+				}
+				if al == 0 && rng.Bool() {
+					ad = nil // S2V always has ONE (possibly empty) associated-data component
+					o.Count("siv/nil-ad")
+				}
 				nmut, nad := 6, 2
 				if pl+al > 1500 { // driver time
 					nmut, nad = 3, 1
@@ -430,6 +447,25 @@ func largeLoop(o *hlib.Out, rng *hlib.Rng) {
 	}
 }
 
+// hugeLoop: very long inputs (chunked / streaming code with large chunk sizes): 256 KiB in quick, 1 MiB in thorough.
+func hugeLoop(o *hlib.Out, rng *hlib.Rng) {
+	size := 256 << 10
+	if hlib.Thorough() {
+		size = 1 << 20
+	}
+	for c := 0; c < hlib.N(2, 4); c++ {
+		o.Case()
+		o.Count("huge")
+		pl, al := sivLens(rng)
+		if c%2 == 0 {
+			pl = size + rng.Pick(-1, 0, 1, 15, 16, 17)
+		} else {
+			al = size + rng.Pick(-1, 0, 1, 15, 16, 17)
+		}
+		sivCase(o, rng, randSIV(o, rng), rng.Bytes(pl), rng.Bytes(al), 0, 0)
+	}
+}
+
 func main() {
 	o := hlib.Open("C08")
 	defer o.Close()
@@ -447,6 +483,7 @@ func main() {
 	}
 	mainLoop(o, hlib.NewRng(seed, "c08"))
 	largeLoop(o, hlib.NewRng(seed, "c08/large"))
+	hugeLoop(o, hlib.NewRng(seed, "c08/huge"))
 	ctrHunt(o, hlib.NewRng(seed, "c08/hunt"))
 	ctrDirect(o, hlib.NewRng(seed, "c08/ctr"))
 }
